@@ -285,6 +285,8 @@ func candidates(g *gen, t *sg.TypeSpec) []string {
 				}
 			}
 			if t.FD > 0 {
+				// not decimal64 lexical forms although they read as numbers: exponents, hex floats, digit separators, missing parts
+				out = append(out, "1.5e1", "+7.e1", "9.9e-1", "1.0E2", "-3.0e+00", "1.e0", "0.5e0", "0x1.8p1", "1_0.5", "1.5f", ".5", "5.", "+.5", "1..5", "1.5.", "1,5", "١.٥")
 				out = append(out, "1."+strings.Repeat("1", t.FD), "1."+strings.Repeat("1", t.FD+1), "1."+strings.Repeat("1", max(1, t.FD-1)), "1", "-1", "0."+strings.Repeat("0", t.FD-1)+"1")
 			}
 			out = append(out, "9223372036854775807", "9223372036854775808", "-9223372036854775808", "-9223372036854775809", "18446744073709551615", "18446744073709551616", "99999999999999999999")
